@@ -73,17 +73,19 @@ def run(L, rep, tier, seed):
 
     def h(ctx):
         cls = classes[ctx.choose(len(classes), 'class')]
-        pos = ctx.choose(2, 'position')
+        pos = ctx.choose(2 if tier == 'quick' else 3, 'position')
         data = []
-        if pos == 1:
+        if pos >= 1:
             data += K(b'GET /first HTTP/1.1\r\nHost: a\r\n\r\n')
+        if pos >= 2:
+            data += K(b'POST /first HTTP/1.1\r\nHost: a\r\nContent-Length: 2\r\n\r\nxy')
         data += offending_head(ctx, cls)
         data += K(b'GET /after HTTP/1.1\r\nHost: c\r\n\r\n')
         cv = Conv(S, ctx, data, end='eof')
         pred = {}
         sc = lambda m: dict({'kind': 'conversation', 'class': cls, 'position': pos, 'text': model_bytes(m, data).decode('latin1'),
-                             'mode': 'hold_first' if pos == 1 else 'respond_all'}, **({'predicted': dict(pred)} if pred else {}))
-        reqs = drive(cv, hold=lambda i, rq: (pos == 1 and i == 0))
+                             'mode': 'hold_first' if pos >= 1 else 'respond_all'}, **({'predicted': dict(pred)} if pred else {}))
+        reqs = drive(cv, hold=lambda i, rq: (pos >= 1 and i == 0))
         urls = [r['url'].concrete() for r in reqs]
         ctx.event('witness', cls)
         pred['urls'] = [u.decode('latin1') if u is not None else None for u in urls]
@@ -99,7 +101,7 @@ def run(L, rep, tier, seed):
         if cv.blocked is None and not delivered_bad:
             rs = cv.responses() or []
             codes = [r.get('status') for r in rs]
-            want = ([200] if pos == 1 else [])
+            want = [200] * pos
             if want_code == 505:
                 want += [505, 200]            # connection stays usable: the following request is served
                 ok_after = urls[-1:] == [b'/after']
